@@ -100,6 +100,53 @@ func accept(m midi.Message) (acc [nKinds]bool, ch, a, b uint8, rel int16, abs ui
 	return
 }
 
+// nilArgs calls the matching accessor with every combination of nil and
+// non-nil out-parameters ("only arguments that are not nil are parsed and
+// filled"): it must accept, and fill exactly the non-nil ones.
+func nilArgs(m midi.Message, kind, wCh, wA, wB int) string {
+	for mask := 0; mask < 8; mask++ {
+		var ch, a, b uint8 = 0xEE, 0xEE, 0xEE
+		var pc, pa, pb *uint8
+		if mask&1 != 0 {
+			pc = &ch
+		}
+		if mask&2 != 0 {
+			pa = &a
+		}
+		if mask&4 != 0 {
+			pb = &b
+		}
+		var ok bool
+		two := false
+		switch kind {
+		case kNoteOn:
+			ok = m.GetNoteOn(pc, pa, pb)
+		case kNoteOff:
+			ok = m.GetNoteOff(pc, pa, pb)
+		case kPoly:
+			ok = m.GetPolyAfterTouch(pc, pa, pb)
+		case kCC:
+			ok = m.GetControlChange(pc, pa, pb)
+		case kProg:
+			ok, two = m.GetProgramChange(pc, pa), true
+		case kAfter:
+			ok, two = m.GetAfterTouch(pc, pa), true
+		default:
+			return ""
+		}
+		if two && mask&4 != 0 {
+			continue
+		}
+		if !ok {
+			return fmt.Sprintf("accessor rejects its own message when called with nil-mask %03b", mask)
+		}
+		if (pc != nil && int(ch) != wCh) || (pa != nil && int(a) != wA) || (pb != nil && !two && int(b) != wB) {
+			return fmt.Sprintf("with nil-mask %03b the accessor left a requested value unfilled or wrong: ch=%d a=%d b=%d, want %d %d %d", mask, ch, a, b, wCh, wA, wB)
+		}
+	}
+	return ""
+}
+
 type loop struct{ l *ls.Loop }
 
 func newLoop() *loop { return &loop{ls.NewLoop(ls.All(64))} }
@@ -176,6 +223,12 @@ func judge(lp *loop, kind int, ctor string, args []int, m midi.Message, want []b
 		}
 		if bad {
 			report("accessor:"+ctor+":value", ctor, args, m, fmt.Sprintf("accessor returns ch=%d a=%d b=%d rel=%d abs=%d spp=%d", ch, a, b, rel, abs, spp))
+			return
+		}
+	}
+	if want != nil {
+		if w := nilArgs(m, kind, wCh, wA, wB); w != "" {
+			report("accessor:"+ctor+":nil-arguments", ctor, args, m, w)
 			return
 		}
 	}
